@@ -126,5 +126,44 @@ impl Mgr {
     phantom_shared_secret, trampoline_shared_secret, *htlc_id,
 //@end
 }
+
+// ---- a failure the payment took no notice of (a duplicate): the monitor's payment-complete update is released at once unless a queued event still carries it ----
+pub struct Update { pub id: u64 }
+pub enum EventCompletionAction { ReleasePaymentCompleteChannelMonitorUpdate(Update), Other(u64) }
+pub struct Ev { pub id: u64 }
+#[verifier::external_body] pub fn same_action(a: Option<&EventCompletionAction>, b: Option<&EventCompletionAction>) -> (r: bool)
+    ensures r == (match (a, b) { (Some(x), Some(y)) => *x == *y, (None, None) => true, _ => false }) { unimplemented!() }
+//@extract lightning/src/ln/channelmanager.rs :: impl ChannelManager :: fn fail_htlc_backwards_internal
+//@slice R15
+    if let Some(update) = from_monitor_update_completion { let action = $act:seq; let have_action = { let pending_events = self.pending_events.lock().unwrap(); pending_events.iter().any(|(_, act)| $p:seq) }; if $c:cond { self.handle_post_event_actions([action]); } }
+//@with
+    fn release_for_a_failure_the_payment_took_no_notice_of(pending_events: &Vec<(Ev, Option<EventCompletionAction>)>, from_monitor_update_completion: Option<Update>) -> Option<EventCompletionAction> {
+        if let Some(update) = from_monitor_update_completion {
+            let action = $act;
+            let have_action = {
+                let mut found = false; let mut k: usize = 0;
+                while k < pending_events.len()
+                    invariant 0 <= k <= pending_events@.len(), found == (exists|j: int| 0 <= j < k && #[trigger] pending_events@[j].1 == Some(action)),
+                    decreases pending_events@.len() - k,
+                { let act = &pending_events[k].1; if $p { found = true; } k += 1; }
+                found };
+            if $c { return Some(action); }
+        }
+        None
+    }
+//@rw R8
+    act.as_ref() == Some(&action)
+//@with
+    same_action(act.as_ref(), Some(&action))
+//@ret r
+//@ensures P C03,C10 the-payment-complete-update-of-a-failure-that-changed-nothing-is-released-at-once-exactly-when-no-queued-event-still-carries-that-release
+    from_monitor_update_completion is None ==> r is None,
+    from_monitor_update_completion is Some ==> ({ let a = EventCompletionAction::ReleasePaymentCompleteChannelMonitorUpdate(from_monitor_update_completion->Some_0);
+        r == (if exists|j: int| 0 <= j < pending_events@.len() && #[trigger] pending_events@[j].1 == Some(a) { None::<EventCompletionAction> } else { Some(a) }) }),
+//@mutant release_run_although_a_queued_event_will_run_it_again
+    if !have_action {
+//@with
+    if have_action || !have_action {
+//@end
 }
 fn main() {}
